@@ -165,6 +165,8 @@ class Run:
 
     def floor(self, rule_id: str, minimum: int) -> None:
         """Instance floor: a rule matching fewer sites than confirmed by hand is broken."""
+        if self.violations:
+            return  # a violating tree is reported as such; floors guard against vacuous passes only
         have = self.rules.get(rule_id, {}).get("instances", 0)
         if have < minimum:
             raise AnalysisError(
